@@ -112,6 +112,8 @@ type schedResult struct {
 	finished       bool
 	lines          []string
 	afterGoOK      bool
+	afterGoNote    string
+	quitFlag       bool // engine.Quit right after the schedule's commands (a `quit` among them must have been handled)
 	afterReadyOK   bool
 	posUnchanged   bool
 	reached        bool
@@ -191,6 +193,7 @@ func runSchedule(fen, goCmd string, at phase, cmds []string, holdMs int) schedRe
 		}
 		close(release)
 	}
+	res.quitFlag = engine.Quit
 	// a stop was among the commands or the go is bounded: the search must end promptly
 	select {
 	case <-exited:
@@ -223,14 +226,50 @@ func runSchedule(fen, goCmd string, at phase, cmds []string, holdMs int) schedRe
 	}
 	n := oc.count("readyok")
 	res.afterReadyOK = timedCommand("isready", 500*time.Millisecond) && waitFor(oc, "readyok", n+1, time.Second)
+	// ... on another (non-terminal) position, and it must be served like in a fresh session: a stop token or flag left over
+	// from the schedule would cut it short
+	const probeFen = "r3k2r/p1ppqpb1/bn2pnp1/3PN3/1p2P3/2N2Q1p/PPPBBPPP/R3K2R w KQkq - 0 1"
+	searchSummary := func(lines []string) string {
+		var keep []string
+		for _, l := range lines {
+			f := strings.Fields(l)
+			if strings.HasPrefix(l, "bestmove") {
+				keep = append(keep, l)
+			} else if strings.HasPrefix(l, "info score") && len(f) >= 6 {
+				keep = append(keep, strings.Join(f[:6], " ")) // info score cp N depth D
+			}
+		}
+		return strings.Join(keep, " | ")
+	}
+	engine.ParseInputLine("position fen " + probeFen)
 	nb := oc.count("bestmove")
-	if timedCommand("go depth 1", time.Second) {
+	n0 := len(oc.snapshot())
+	probe := ""
+	if timedCommand("go depth 2", time.Second) {
 		select {
 		case <-exited:
 			res.afterGoOK = waitFor(oc, "bestmove", nb+1, time.Second) && oc.count("bestmove") == nb+1
+			probe = searchSummary(oc.snapshot()[n0:])
 		case <-time.After(5 * time.Second):
 		}
 	}
+	if res.afterGoOK {
+		engine.ParseInputLine("position fen " + probeFen) // clears the killer table: same start as the probe above
+		nb = oc.count("bestmove")
+		n0 = len(oc.snapshot())
+		if timedCommand("go depth 2", time.Second) {
+			select {
+			case <-exited:
+				waitFor(oc, "bestmove", nb+1, time.Second)
+				if ref := searchSummary(oc.snapshot()[n0:]); ref != probe {
+					res.afterGoOK = false
+					res.afterGoNote = "probe after the schedule: " + probe + "  -- the same probe once more: " + ref
+				}
+			case <-time.After(5 * time.Second):
+			}
+		}
+	}
+	engine.ParseInputLine("position fen " + fen)
 	// reference: what `go depth D` plays for the deepest iteration that was completed (and reported) in the interrupted run
 	deepest := 0
 	for _, l := range res.lines {
@@ -274,8 +313,8 @@ func printSched(r schedResult) {
 		}
 		return "[" + strings.Join(parts, ",") + "]"
 	}
-	fmt.Fprintf(out, "{\"fen\":\"%s\",\"go\":\"%s\",\"at\":\"%s\",\"cmds\":%s,\"hold_ms\":%d,\"reached\":%v,\"blocked\":%s,\"bestmoves\":%d,\"readyoks\":%d,\"expected_readyoks\":%d,\"finished\":%v,\"after_ready_ok\":%v,\"after_go_ok\":%v,\"pos_unchanged\":%v,\"deepest\":%d,\"ref_best\":\"%s\",\"lines\":%s}\n",
-		esc(r.fen), esc(r.goCmd), r.at, q(r.cmds), r.holdMs, r.reached, q(r.blocked), r.bestmoves, r.readyoks, r.expectedReady, r.finished, r.afterReadyOK, r.afterGoOK, r.posUnchanged, r.deepest, r.refBest, q(r.lines))
+	fmt.Fprintf(out, "{\"fen\":\"%s\",\"go\":\"%s\",\"at\":\"%s\",\"cmds\":%s,\"hold_ms\":%d,\"reached\":%v,\"blocked\":%s,\"bestmoves\":%d,\"readyoks\":%d,\"expected_readyoks\":%d,\"finished\":%v,\"after_ready_ok\":%v,\"after_go_ok\":%v,\"after_go_note\":\"%s\",\"quit_flag\":%v,\"pos_unchanged\":%v,\"deepest\":%d,\"ref_best\":\"%s\",\"lines\":%s}\n",
+		esc(r.fen), esc(r.goCmd), r.at, q(r.cmds), r.holdMs, r.reached, q(r.blocked), r.bestmoves, r.readyoks, r.expectedReady, r.finished, r.afterReadyOK, r.afterGoOK, esc(r.afterGoNote), r.quitFlag, r.posUnchanged, r.deepest, r.refBest, q(r.lines))
 	out.Flush()
 }
 
@@ -296,6 +335,8 @@ func init() {
 			"rnbqkbnr/pppppppp/8/8/8/8/PPPPPPPP/RNBQKBNR w KQkq - 0 1",
 			"r4rk1/1pp1qppp/p1np1n2/2b1p1B1/2B1P1b1/P1NP1N2/1PP1QPPP/R4RK1 b - - 0 10",
 		}
+		// roots without a legal move: the search answers `bestmove 0000` without ever polling the stop channel
+		terminal := []string{"7k/5Q2/6K1/8/8/8/8/8 b - - 0 1", "7k/6Q1/6K1/8/8/8/8/8 b - - 0 1"}
 		for len(fens) < npos {
 			gm := playout(r, "startpos", 20+r.intn(80))
 			if len(gm.fens) > 2 {
@@ -307,6 +348,16 @@ func init() {
 			cmdSets = [][]string{{"stop"}}
 		}
 		count := 0
+		if mode != "c11" {
+			for _, fen := range terminal {
+				for _, ph := range []phase{{engine.VsSearchEntered, 0, 0}, {engine.VsBeforeBestmove, 0, 0}, {engine.VsAfterBestmove, 0, 0}} {
+					for _, cs := range cmdSets {
+						printSched(runSchedule(fen, "go infinite", ph, cs, 0))
+						count++
+					}
+				}
+			}
+		}
 		for pi := 0; pi < npos && pi < len(fens); pi++ {
 			fen := fens[pi]
 			var phases []phase
